@@ -287,4 +287,28 @@ inline Verdict run_forked(const std::string &prop, const std::function<Verdict()
     return v;
 }
 
+
+// libFuzzer targets: counters are flushed to $FUZZ_OUT/fuzz-stats.<pid> every 4096 executions and on failure;
+// a failing case is written as text to $FUZZ_OUT/fuzz-fail.<pid>.case before trapping (sanitizer-style abort).
+inline void fuzz_account(const std::string &text, const Verdict &v) {
+    static uint64_t execs = 0, nontrivial = 0; static std::unordered_set<uint64_t> hashes; static std::string sample;
+    execs++;
+    if (v.nontrivial) { nontrivial++; if (hashes.size() < 2000000) hashes.insert(fnv1a(text)); if (sample.empty() || (execs % 50000) == 0) sample = text; }
+    const char *out = getenv("FUZZ_OUT");
+    auto flush = [&]() {
+        if (!out) return;
+        std::string p = std::string(out) + "/fuzz-stats." + std::to_string(getpid());
+        FILE *f = fopen(p.c_str(), "w"); if (!f) return;
+        fprintf(f, "{\"execs\": %llu, \"nontrivial\": %llu, \"distinct_nontrivial\": %zu, \"sample\": \"%s\"}\n", (unsigned long long)execs, (unsigned long long)nontrivial, hashes.size(), json_escape(sample).c_str());
+        fclose(f);
+    };
+    if (!v.ok) {
+        if (out) write_file(std::string(out) + "/fuzz-fail." + std::to_string(getpid()) + ".case", "# rule " + v.rule + "\n# " + v.message.substr(0, 300) + "\n" + text);
+        flush();
+        fprintf(stderr, "FUZZ-VIOLATION %s: %s\n", v.rule.c_str(), v.message.c_str());
+        __builtin_trap();
+    }
+    if ((execs & 4095) == 0) flush();
+}
+
 } // namespace rt
